@@ -399,17 +399,6 @@ func historyDiffers(a, b *input) (bool, digest, digest) {
 	return ds[0].key() != ds[2].key(), ds[0], ds[2]
 }
 
-// sentinel shows the types the predeclared true and false have in this process.
-var sentinel = &input{Name: "sentinel", Prog: true, Run: true, Files: map[string]string{"main.go": "package main\nfunc main() {\n\tvar x any = true\n\tvar y any = false\n\tswitch x.(type) {\n\tcase bool:\n\t\tprintln(\"bool\")\n\tdefault:\n\t\tprintln(\"other\")\n\t}\n\tswitch y.(type) {\n\tcase bool:\n\t\tprintln(\"bool\")\n\tdefault:\n\t\tprintln(\"other\")\n\t}\n\tprintln(false || true, true && false)\n}\n"}}
-
-// pollutesBool: in a fresh process, does building b change what the sentinel builds to? That
-// is the mechanism of finding history-universe-bool (b leaves the shared type info of the
-// predeclared true / false with a type of its own).
-func pollutesBool(b *input) bool {
-	ds, err := freshSequence([]*input{sentinel, b, sentinel})
-	return err == nil && ds[0].key() != ds[2].key()
-}
-
 var boolRe = regexp.MustCompile(`\b(true|false)\b`)
 
 // sourcesOf returns the source texts of an input.
@@ -530,7 +519,7 @@ func run(c *hx.Ctx) error {
 	c.R = proto.NewRand(c.R.U64())
 	res := c.Res
 	inproc, procs := 8, 3
-	res.Rule = fmt.Sprintf("programs and templates of /repo/test/compare/testdata (single files, .dir programs and templates) and generated ones (package-level multi-value var declarations, many globals with initialisation dependencies, functions sharing a line, closures, a second package in the module, init functions; templates with macros, imports, extends, using/itea, global variables), each built %d times in this process and once in each of %d child processes, and random triples build A, build B, build A (A, B any two inputs) whose two A results must coincide; a case is one input, distinct by source, non-trivial when it builds without error", inproc, procs)
+	res.Rule = fmt.Sprintf("programs and templates of /repo/test/compare/testdata (single files, .dir programs and templates) and generated ones (package-level multi-value var declarations, many globals with initialisation dependencies, functions sharing a line, closures, a second package in the module, init functions; templates with macros, imports, extends, using/itea, global variables), each built %d times in this process and once in each of %d child processes, and random triples build A, build B, build A (A, B any two inputs) whose two A results must coincide; the declaration-order family (packages of constants, variables, types and functions, named or blank, with forward references between every pair of kinds: the matrix blank declaration A of kind k1 using a named D of kind k2 beside a second blank declaration B of kind k3 in the six source orders, random packages of 3-9 declarations, and a malformed stream - a name declared twice, a dependency cycle, an undeclared identifier), each package built 64 times in this process (thorough: 256) and, when valid Go (go/types), compared with the Lean model of the ordering (builds iff the model's order is resolvable; variables initialised in the model's order); the rebuild family (true/false/nil/iota used at a type the program defines and where the default type shows: 12 typed uses x 6 observations x 2 orders), each program built 3 times in a process of its own; a case is one input, distinct by source, non-trivial when it builds without error", inproc, procs)
 
 	// the site list and the model of the loop classes
 	if c.D != nil {
